@@ -21,7 +21,7 @@ func vpH_c17_dictionary() {
 	vpCheckFullSource(s)
 }
 
-const vpSrcClass = "a-b0._/\\-#:@\\\\"
+const vpSrcClass = "a-bB0._/\\-#:@\\\\"
 
 // components: '/'-separated, each non-empty, not dot-only, name characters only
 const vpCompRe = `[A-Za-z0-9._\-]*[A-Za-z0-9_\-][A-Za-z0-9._\-]*`
